@@ -53,8 +53,13 @@ impl VHDLFormatter<'_> {
         buffer: &mut Buffer,
     ) {
         self.format_name(call.name.as_ref(), buffer);
+        // A procedure call without parameters has no parentheses.
+        // If the name extends to the end of the call, a closing parenthesis
+        // is part of the name itself, e.g., the slice name in `foo(0 to 1);`
         let open_paren = call.name.span.end_token + 1;
-        if self.tokens.index(open_paren).kind == Kind::LeftPar {
+        let has_parentheses =
+            open_paren <= span.end_token && self.tokens.index(open_paren).kind == Kind::LeftPar;
+        if has_parentheses {
             self.format_token_id(open_paren, buffer);
         }
         for (i, parameter) in call.parameters.items.iter().enumerate() {
@@ -65,7 +70,7 @@ impl VHDLFormatter<'_> {
             }
         }
         let close_paren = span.end_token;
-        if self.tokens.index(close_paren).kind == Kind::RightPar {
+        if has_parentheses && self.tokens.index(close_paren).kind == Kind::RightPar {
             self.format_token_id(close_paren, buffer);
         }
     }
